@@ -8,7 +8,8 @@ out.append("### 8.4 Genuine defects found by the checks (generated from known_fi
 out.append("**Repaired (`fix:` commits in /repo).** A fixed entry suppresses nothing: the check passes on the repaired tree and reports the violation again if it returns.\n")
 out.append("| property | commit | what failed |\n|---|---|---|")
 for l in f['fixed']:
-    m=re.match(r"fixed: property=(C\d+) (\w+) (.*)",l)
+    m=re.match(r"fixed: property=(C\d+) ([\w+]+) (.*)",l)
+    if not m: continue
     out.append(f"| {m.group(1)} | `{m.group(2)}` | {m.group(3).replace('|','/')} |")
 out.append("\n**Recorded, not repaired (known findings; each keyed by its exact violation signature, any other signature of the same property still prints `VIOLATION`).**\n")
 out.append("| property | signature | what fails / why not repaired |\n|---|---|---|")
